@@ -135,6 +135,11 @@ def write_inputs(rng, fmt, work):
     ref = None
     if rng.random() < .7:
         ref = dump(variant(7, is_ref=True), ("gt.v1.2" if dotted else "gt") + ext_name, fmt)
+        if rng.random() < .12:
+            # another input whose name differs from the reference's only in letter case (a different
+            # file on this file system: it is one of the trajectories, not the reference)
+            name = ("GT.v1.2" if dotted else "GT") + ext_name
+            trajs[name] = dump(variant(5), name, fmt)
     return trajs, ref, {"ext": ext, "dt": dt, "n_base": n_base, "unsorted": bool(flags.get("unsorted"))}
 
 
